@@ -24,6 +24,8 @@ def versions(tier):
                 for p in ([0, 7] if tier == "thorough" else [4]):
                     out.append("%d.%d.%d%s" % (M, m, p, suffix))
     out += ["1.10.0", "1.9.0", "10.0.0", "0.10.1", "0.9.9"]
+    # same major.minor with other patches, prerelease-only and build-only suffixes (patch numbers and suffixes never matter)
+    out += ["0.1.9", "0.3.0+b5", "1.1.0", "1.1.11-rc.1", "2.3.11-rc.1", "3.0.7", "1.0.0-alpha", "2.1.1+exp.sha.5114f85"]
     return out
 
 
@@ -164,13 +166,20 @@ def run(tier, seed, replay):
     # the gate does not depend on the other flags
     if not replay:
         fl_cases = [(B, V) for B in ["1.2.3", "v1.2.3", "0.4.1", "devel"] for V in ["1.2.0", "1.3.0", "0.4.9", "0.5.0", "2.0.0", "1.2.3-rc.1+b"]]
-        FL = [{"quiet": True}, {"stub": True}, {"ignore_missing_params": True, "ignore_missing_services": True}, {"quiet": True, "stub": True, "ignore_missing_params": True, "ignore_missing_services": True}]
+        FL = [{"quiet": True}, {"stub": True}, {"ignore_params": True, "ignore_services": True}, {"quiet": True, "stub": True, "ignore_params": True, "ignore_services": True}]
         fspecs = []
         for B, V in fl_cases:
             for fl in [{}] + FL:
                 fspecs.append({"id": "f%d" % len(fspecs), "files": [{"path": "c.yaml", "content": yaml_of("str", V)}], "patterns": ["c.yaml"],
                                "output": "out.go", "flags": fl, "version": B, "build_info": "x", "dump": False})
         fobs = build.gx_run(tooldir, fspecs)
+        common.real_sanity(out, fspecs, fobs, "C18")
+        # (the ignore flags are really passed: a configuration with dangling references is accepted exactly under them)
+        probe = [{"id": "fp%d" % i, "files": [{"path": "c.yaml", "content": "services: {s: {constructor: N, arguments: [\"@ghost\", \"%gone%\"]}}\n"}], "patterns": ["c.yaml"], "output": "out.go",
+                  "flags": fl, "version": "1.2.3", "build_info": "x", "dump": False} for i, fl in enumerate([{}] + FL)]
+        pobs = build.gx_run(tooldir, probe)
+        if [o.get("exit") for o in pobs] != [1, 1, 1, 0, 0]:
+            out.broke("harness: the flag sets of the C18 flag-independence family do not reach the tool", [o.get("exit") for o in pobs])
         for j in range(0, len(fspecs), 1 + len(FL)):
             base = fobs[j].get("exit")
             for t in range(1, 1 + len(FL)):
@@ -196,7 +205,7 @@ def linked_binaries(out, tooldir, env, tier):
     pairs = [("v1.2.3", "1.2.3", 0), ("v1.2.3", "1.3.0", 1), ("1.2.3", "1.2.0", 0), ("v0.4.1", "0.4.9", 0),
              ("v0.4.1", "0.5.0", 1), ("dev-main", "9.9.9", 0), ("vv1.2.3", "9.9.9", 0), ("v2.0.0", "1.0.0", 1)]
     if tier == "quick":
-        pairs = pairs[:4]
+        pairs = [pairs[i] for i in (0, 1, 4, 5, 6)]      # one of each class: v-prefixed accept / reject, major 0 reject, non-semver build, vv-prefixed
     n = 0
     tmp = tempfile.mkdtemp(prefix="gvc18_", dir="/dev/shm")
     try:
